@@ -668,3 +668,529 @@ func c04RewriteKeepsEveryResult(c *Check, rule string) {
 	})
 	c.Hold(rule, "loops-seen", token.NoPos, true, itoa(n))
 }
+
+// ---- C16.R12: SMTPCode is asked for a temporary 4xx and a permanent 5xx.
+// exterrors.SMTPCode(err, t, p) answers t when err is temporary and p otherwise; its companion SMTPEnchCode sets the
+// class digit by the same test. The pair is coherent only when t is a 4xx and p a 5xx CONSTANT: with p a variable
+// (`code = SMTPCode(err, 451, code)` inside a fold over several errors – C16O) a permanent error visited after a
+// temporary one keeps 451 while the enhanced class goes back to 5: `451 5.0.0`.
+func c16SMTPCodeArgs(c *Check, rule string) {
+	c.Rule(rule, "every call of exterrors.SMTPCode passes a constant 4xx as the temporary and a constant 5xx as the permanent code (the class SMTPEnchCode derives from the same error then agrees with it)", 5)
+	p := c.P
+	n := 0
+	for _, pk := range p.ServerPkgs() {
+		info := pk.TypesInfo
+		for _, f := range pk.Syntax {
+			if strings.HasSuffix(p.Fset.Position(f.Pos()).Filename, "_test.go") {
+				continue
+			}
+			ast.Inspect(f, func(x ast.Node) bool {
+				call, ok := x.(*ast.CallExpr)
+				if !ok || !isCall(info, call, exterrPkg+".SMTPCode") || len(call.Args) != 3 {
+					return true
+				}
+				n++
+				cls := func(e ast.Expr) int {
+					if tv, has := info.Types[e]; has && tv.Value != nil {
+						if v, ok := constInt(tv); ok {
+							return int(v / 100)
+						}
+					}
+					return -1
+				}
+				t, pm := cls(call.Args[1]), cls(call.Args[2])
+				c.Hold(rule, pk.Types.Name()+":SMTPCode:"+itoa(p0(p, call.Pos())), call.Pos(), t == 4 && pm == 5, "line "+itoa(p0(p, call.Pos()))+": "+exprStr(call)+" – the alternatives are not a constant 4xx and a constant 5xx: the basic code can keep a class the enhanced code computed from the same error does not have (e.g. 451 with 5.0.0)")
+				return true
+			})
+		}
+	}
+	if n == 0 {
+		c.Fail(rule, "sites", token.NoPos, "anchor unresolved: no call of exterrors.SMTPCode")
+	}
+}
+
+// ---- C12.R18: shutdown does not wait with a lock in its hand.
+// Queue.Close waits for the attempts in flight (deliveryWg.Wait). An attempt that ends during the wait may call back
+// into the queue – a failure report routed into the same queue calls q.Start. A mutex of the queue that Close holds
+// across the wait and any such entry point takes makes shutdown wait for itself (C12O). Decided on the flow graph of
+// every function of the package: from a Lock / RLock of a mutex field no WaitGroup.Wait is reachable unless the
+// matching Unlock lies in between (a deferred Unlock runs at return: it does not).
+func c12NoLockAcrossWait(c *Check, rule string) {
+	c.Rule(rule, "package queue: no function waits for a wait group (the attempts in flight) while it holds one of the queue's mutexes – an attempt that calls back into the queue during shutdown would block on that mutex for ever", 1)
+	p := c.P
+	pk := p.Pkg(queueRel)
+	if pk == nil {
+		c.Fail(rule, "package", token.NoPos, "anchor unresolved")
+		return
+	}
+	nWait := 0
+	p.AllFuncs([]*packagesPkg{pk}, func(fi *FuncInfo) {
+		if fi.Decl.Body == nil || strings.HasSuffix(p.Fset.Position(fi.Decl.Pos()).Filename, "_test.go") {
+			return
+		}
+		info := fi.Info()
+		funcBodies(p, fi, func(name string, body *ast.BlockStmt, fl *Flow) {
+			isWait := func(pt Pt) bool {
+				if _, isDefer := pt.Node().(*ast.DeferStmt); isDefer {
+					return false
+				}
+				for _, call := range callsAt(pt.Node()) {
+					if isCall(info, call, "sync.WaitGroup.Wait") {
+						return true
+					}
+				}
+				return false
+			}
+			var waits []Pt
+			for _, pt := range fl.Points() {
+				if pt.Node() != nil && isWait(pt) {
+					waits = append(waits, pt)
+				}
+			}
+			if len(waits) == 0 {
+				return
+			}
+			nWait += len(waits)
+			c.SawFunc(fi.Name())
+			msg := ""
+			for _, pt := range fl.Points() {
+				n := pt.Node()
+				if n == nil {
+					continue
+				}
+				if _, isDefer := n.(*ast.DeferStmt); isDefer {
+					continue
+				}
+				for _, call := range callsAt(n) {
+					if !isLockCall(info, call) {
+						continue
+					}
+					m := exprStr(callRecv(call))
+					unlock := func(q Pt) bool {
+						if q.Node() == nil {
+							return false
+						}
+						if _, isDefer := q.Node().(*ast.DeferStmt); isDefer {
+							return false
+						}
+						for _, uc := range callsAt(q.Node()) {
+							if isUnlockCall(info, uc) && exprStr(callRecv(uc)) == m {
+								return true
+							}
+						}
+						return false
+					}
+					if path, found := fl.Reach(Query{From: []Pt{pt}, Target: isWait, Avoid: unlock}); found {
+						msg = "line " + itoa(p0(p, call.Pos())) + ": " + m + " is held while the function waits for the wait group (" + fl.Describe(path) + "): an attempt that ends during the wait and calls a method that takes " + m + " (a failure report delivered into this queue calls Start) never returns, and neither does the wait"
+					}
+				}
+			}
+			c.Hold(rule, name+":wait-without-lock", body.Pos(), msg == "", msg)
+		})
+	})
+	if nWait == 0 {
+		c.Fail(rule, "waits", token.NoPos, "anchor unresolved: no WaitGroup.Wait in package queue")
+	}
+}
+
+// ---- C12.R19 (= C02.R14): the staging file of a record rewrite belongs to its message.
+// updateMetadataOnDisk writes the new record to a scratch file and renames it over the old one. Attempts of different
+// messages end concurrently: the scratch file's name has to contain the message's id (it is the record's final path
+// plus a suffix), and the rename's source is the file that was written. One scratch file for the whole spool (C12P)
+// lets two rewrites interleave: a message is spooled with another message's envelope, or its rename finds nothing.
+func c12StagingFilePerMessage(c *Check, rule string) {
+	c.Rule(rule, "updateMetadataOnDisk: the staging file's path is built from the message's id (the record's own path plus a suffix) and the rename's source is that same path – concurrent rewrites of different messages never share a file", 2)
+	r := c.need(rule, queueRel, "Queue", "updateMetadataOnDisk")
+	if r == nil {
+		return
+	}
+	info := r.Info
+	body := r.FI.Decl.Body
+	// does expression e (through single-definition locals) mention a field named ID?
+	var perMsg func(e ast.Expr, depth int) bool
+	perMsg = func(e ast.Expr, depth int) bool {
+		if e == nil || depth > 6 {
+			return false
+		}
+		found := false
+		ast.Inspect(e, func(x ast.Node) bool {
+			switch y := x.(type) {
+			case *ast.SelectorExpr:
+				if f := fieldOf(info, y); f != nil && f.Name() == "ID" {
+					found = true
+				}
+			case *ast.Ident:
+				if o := objOf(info, y); o != nil && localIn(body, o) {
+					if d, n := localDef(info, body, o); n == 1 && d != nil && d != e {
+						if perMsg(d, depth+1) {
+							found = true
+						}
+					}
+				}
+			}
+			return !found
+		})
+		return found
+	}
+	var created []ast.Expr
+	var renamedFrom []ast.Expr
+	for _, call := range callsIn(body) {
+		if isCreate(info, call) && len(call.Args) >= 1 {
+			created = append(created, call.Args[0])
+		}
+		if isCall(info, call, "os.Rename") && len(call.Args) == 2 {
+			renamedFrom = append(renamedFrom, call.Args[0])
+		}
+	}
+	if len(created) == 0 {
+		c.Fail(rule, "updateMetadataOnDisk:create", r.FI.Decl.Pos(), "undecided: no file is created")
+		return
+	}
+	for i, e := range created {
+		c.Hold(rule, "updateMetadataOnDisk:create"+itoa(i+1), e.Pos(), perMsg(e, 0), "the file the new record is written to ("+exprStr(e)+") is not named after the message: two attempts that end at the same time write into one file – a message is stored with another message's recipients, or not at all")
+	}
+	for i, e := range renamedFrom {
+		same := false
+		for _, cr := range created {
+			if exprStr(cr) == exprStr(e) {
+				same = true
+			}
+		}
+		c.Hold(rule, "updateMetadataOnDisk:rename"+itoa(i+1), e.Pos(), same && perMsg(e, 0), "the rename's source ("+exprStr(e)+") is not the per-message file that was written")
+	}
+}
+
+// ---- C14.R8: the credentials table keeps one row per key.
+// table.sql_query's SetKey is "INSERT, and only when that is refused, UPDATE". It is an upsert only if the table
+// refuses a second row for a key. table.sql_table creates the table itself: while SetKey has that shape, the CREATE
+// TABLE statement it generates declares the key column PRIMARY KEY or UNIQUE. Without it (C14O) a password change
+// inserts a second row, Lookup keeps answering with the first: the old password stays valid, the new one is refused.
+func c14KeyColumnUnique(c *Check, rule string) {
+	c.Rule(rule, "table.sql_table: while SetKey updates only after a refused insert, the generated CREATE TABLE statement makes the key column PRIMARY KEY / UNIQUE (otherwise a changed password adds a row and the old one stays valid)", 1)
+	sk := c.need(rule, "internal/table", "SQL", "SetKey")
+	ini := c.need(rule, "internal/table", "SQLTable", "Init")
+	if sk == nil || ini == nil {
+		return
+	}
+	// premise: an Exec on the `set` statement happens only on the error edge of an Exec on the `add` statement
+	isExecOn := func(field string) CallPred {
+		return func(info *types.Info, call *ast.CallExpr) bool {
+			if methodName(call) != "Exec" && methodName(call) != "ExecContext" {
+				return false
+			}
+			f := fieldOf(info, callRecv(call))
+			return f != nil && f.Name() == field
+		}
+	}
+	adds, sets := sk.Calls(isExecOn("add")), sk.Calls(isExecOn("set"))
+	premise := len(adds) > 0 && len(sets) > 0
+	if premise {
+		for _, a := range adds {
+			call := sk.CallAt(a, isExecOn("add"))
+			// on the nil edge of the insert no update is reachable
+			if found, _, ok := sk.OnErr(a, call, true, isPt(sets), nil); !ok || found {
+				premise = false
+			}
+		}
+	}
+	if !premise {
+		c.Hold(rule, "SetKey:not-insert-then-update", sk.FI.Decl.Pos(), true, "")
+		return
+	}
+	info := ini.Info
+	var stmts []string
+	ast.Inspect(ini.FI.Decl.Body, func(x ast.Node) bool {
+		cl, ok := x.(*ast.CompositeLit)
+		if !ok {
+			return true
+		}
+		isInit := false
+		var args ast.Expr
+		for _, el := range cl.Elts {
+			kv, ok := el.(*ast.KeyValueExpr)
+			if !ok {
+				continue
+			}
+			id, _ := kv.Key.(*ast.Ident)
+			if id == nil {
+				continue
+			}
+			if id.Name == "Name" {
+				if s, ok := constString(info, kv.Value); ok && s == "init" {
+					isInit = true
+				}
+			}
+			if id.Name == "Args" {
+				args = kv.Value
+			}
+		}
+		if isInit && args != nil {
+			ast.Inspect(args, func(y ast.Node) bool {
+				if e, ok := y.(ast.Expr); ok {
+					if s, ok := constString(info, e); ok {
+						stmts = append(stmts, s)
+					}
+				}
+				return true
+			})
+		}
+		return true
+	})
+	okU := false
+	seenCreate := false
+	for _, s := range stmts {
+		u := strings.ToUpper(s)
+		if strings.Contains(u, "CREATE TABLE") {
+			seenCreate = true
+			// the key column is the first column of the statement
+			if i := strings.Index(u, "("); i >= 0 {
+				first := u[i:]
+				if j := strings.Index(first, ","); j >= 0 {
+					first = first[:j]
+				}
+				if strings.Contains(first, "PRIMARY KEY") || strings.Contains(first, "UNIQUE") {
+					okU = true
+				}
+			}
+			if strings.Contains(u, "PRIMARY KEY (") || strings.Contains(u, "UNIQUE (") {
+				okU = true
+			}
+		}
+		if strings.Contains(u, "CREATE UNIQUE INDEX") {
+			okU = true
+		}
+	}
+	if !seenCreate {
+		c.Fail(rule, "SQLTable.Init:create-table", ini.FI.Decl.Pos(), "undecided: no constant CREATE TABLE statement in the init node")
+		return
+	}
+	c.HoldConst(rule, "SQLTable.Init:key-unique", ini.FI.Decl.Pos(), okU, "the table sql_table creates does not refuse a second row for a key, while SetKey (insert, update only when the insert fails) relies on exactly that: after `creds password` the account has two rows, authentication reads the first – the old password is still accepted and the new one refused")
+}
+
+// ---- C15.R17: every name of the normalisation table means its own function, and only the casefold names fold.
+// authz.NormalizeFuncs maps the values of auth_normalize / from_normalize / user_normalize to functions. An
+// administrator who writes `precis_email` asks for case-PRESERVING comparison of local parts – Alice@ and alice@ are
+// two accounts. Decided: no two names map to the same function value; a name containing "casefold" maps to a function
+// whose cone contains a case-mapping step (precis.UsernameCaseMapped, strings.ToLower, cases.Fold) and a name without
+// it (other than `auto`, documented as folding) to one whose cone contains none.
+func c15NormalizerTable(c *Check, rule string) {
+	c.Rule(rule, "authz.NormalizeFuncs: no two configuration names denote the same function, and exactly the names that say casefold (and auto) map to a function that folds case – `precis_email` keeps Alice@ and alice@ apart", 5)
+	p := c.P
+	pk := p.Pkg("internal/authz")
+	if pk == nil {
+		c.Fail(rule, "package", token.NoPos, "anchor unresolved")
+		return
+	}
+	info := pk.TypesInfo
+	var lit *ast.CompositeLit
+	for _, f := range pk.Syntax {
+		ast.Inspect(f, func(x ast.Node) bool {
+			vs, ok := x.(*ast.ValueSpec)
+			if !ok {
+				return true
+			}
+			for i, nm := range vs.Names {
+				if nm.Name == "NormalizeFuncs" && i < len(vs.Values) {
+					lit, _ = ast.Unparen(vs.Values[i]).(*ast.CompositeLit)
+				}
+			}
+			return true
+		})
+	}
+	if lit == nil {
+		c.Fail(rule, "NormalizeFuncs", token.NoPos, "anchor unresolved: table literal")
+		return
+	}
+	var folds func(e ast.Expr, inf *types.Info, depth int) bool
+	foldsBody := func(n ast.Node, inf *types.Info, depth int) bool {
+		found := false
+		ast.Inspect(n, func(y ast.Node) bool {
+			switch z := y.(type) {
+			case *ast.SelectorExpr:
+				if z.Sel.Name == "UsernameCaseMapped" || z.Sel.Name == "Fold" {
+					found = true
+				}
+			case *ast.CallExpr:
+				if isCall(inf, z, "strings.ToLower", "strings.ToUpper", "strings.EqualFold") {
+					found = true
+				} else if fn := callee(inf, z); fn != nil && fn.Pkg() != nil && strings.HasPrefix(fn.Pkg().Path(), modPath) && depth < 4 {
+					if d := p.DeclOf(fn); d != nil && d.Decl.Body != nil {
+						if folds(nil, nil, depth+1) || func() bool {
+							f2 := false
+							ast.Inspect(d.Decl.Body, func(w ast.Node) bool {
+								if se, ok := w.(*ast.SelectorExpr); ok && (se.Sel.Name == "UsernameCaseMapped" || se.Sel.Name == "Fold") {
+									f2 = true
+								}
+								if cc, ok := w.(*ast.CallExpr); ok && isCall(d.Info(), cc, "strings.ToLower") {
+									f2 = true
+								}
+								return !f2
+							})
+							return f2
+						}() {
+							found = true
+						}
+					}
+				}
+			}
+			return !found
+		})
+		return found
+	}
+	folds = func(e ast.Expr, inf *types.Info, depth int) bool {
+		if e == nil {
+			return false
+		}
+		e = ast.Unparen(e)
+		if fl, ok := e.(*ast.FuncLit); ok {
+			return foldsBody(fl.Body, inf, depth)
+		}
+		if se, ok := e.(*ast.SelectorExpr); ok {
+			// method value precis.UsernameCaseMapped.CompareKey
+			if strings.Contains(exprStr(se), "UsernameCaseMapped") {
+				return true
+			}
+			if strings.Contains(exprStr(se), "UsernameCasePreserved") {
+				return false
+			}
+		}
+		if o := objOf(inf, e); o != nil {
+			if fn, ok := o.(*types.Func); ok {
+				if d := p.DeclOf(fn); d != nil && d.Decl.Body != nil {
+					return foldsBody(d.Decl.Body, d.Info(), depth+1)
+				}
+			}
+		}
+		return false
+	}
+	seen := map[string]string{}
+	for _, el := range lit.Elts {
+		kv, ok := el.(*ast.KeyValueExpr)
+		if !ok {
+			continue
+		}
+		name, ok := constString(info, kv.Key)
+		if !ok {
+			continue
+		}
+		val := exprStr(kv.Value)
+		_, isLit := ast.Unparen(kv.Value).(*ast.FuncLit)
+		if prev, dup := seen[val]; dup && !isLit {
+			c.Hold(rule, "NormalizeFuncs:"+name+":own-function", kv.Pos(), false, "the names "+prev+" and "+name+" map to the same function ("+val+"): one of the two settings does not do what its name says")
+		} else {
+			c.Hold(rule, "NormalizeFuncs:"+name+":own-function", kv.Pos(), true, "")
+		}
+		if !isLit {
+			seen[val] = name
+		}
+		wantFold := strings.Contains(name, "casefold") || name == "auto"
+		if name == "noop" || strings.HasPrefix(name, "precis") || strings.Contains(name, "casefold") {
+			got := folds(kv.Value, info, 0)
+			c.Hold(rule, "NormalizeFuncs:"+name+":case", kv.Pos(), got == wantFold, "the setting "+name+" maps to "+val+", which "+map[bool]string{true: "folds", false: "does not fold"}[got]+" case: "+map[bool]string{true: "a case-preserving setting compares Alice@ and alice@ as equal – one user may send as the other", false: "a case-folding setting keeps spellings of one account apart"}[got])
+		}
+	}
+}
+
+// ---- C19.R15: the pool applies the bounds it was configured with.
+// conn_max_idle_time, conn_max_idle_count and the key limits arrive in pool.Config from the target's directives
+// (defaults included). Inside package pool the numeric fields of Config are only read: a "sane default" written into
+// them in New (C19P: MaxConnLifetimeSec <= 0 becomes 150) turns the user's `conn_max_idle_time 0` – never reuse an
+// idle connection – into 150 seconds of reuse.
+func c19ConfigNotRewritten(c *Check, rule string) {
+	c.Rule(rule, "package pool: the numeric bounds of pool.Config are never assigned inside the package (the idle lifetime compared in Get is the configured one, zero included)", 1)
+	p := c.P
+	pk := p.Pkg(poolRel)
+	if pk == nil {
+		c.Fail(rule, "package", token.NoPos, "anchor unresolved")
+		return
+	}
+	info := pk.TypesInfo
+	cfgT := pk.Types.Scope().Lookup("Config")
+	if cfgT == nil {
+		c.Fail(rule, "Config", token.NoPos, "anchor unresolved")
+		return
+	}
+	msg := ""
+	for _, f := range pk.Syntax {
+		if strings.HasSuffix(p.Fset.Position(f.Pos()).Filename, "_test.go") {
+			continue
+		}
+		ast.Inspect(f, func(x ast.Node) bool {
+			var lhs []ast.Expr
+			switch s := x.(type) {
+			case *ast.AssignStmt:
+				lhs = s.Lhs
+			case *ast.IncDecStmt:
+				lhs = []ast.Expr{s.X}
+			}
+			for _, l := range lhs {
+				fv := fieldOf(info, ast.Unparen(l))
+				if fv == nil {
+					continue
+				}
+				se := ast.Unparen(l).(*ast.SelectorExpr)
+				if !typeIs(derefAll(info.TypeOf(se.X)), pk.PkgPath, "Config") {
+					continue
+				}
+				if b, ok := fv.Type().Underlying().(*types.Basic); ok && b.Info()&types.IsNumeric != 0 {
+					msg = "line " + itoa(p0(p, l.Pos())) + ": " + exprStr(l) + " is assigned inside the pool: the bound the user configured (0 = never reuse an idle connection) is replaced"
+				}
+			}
+			return true
+		})
+	}
+	c.Hold(rule, "pool:config-read-only", token.NoPos, msg == "", msg)
+}
+
+// ---- C13.R11: the time certificates are judged at is the time of the judgement.
+// verifyDANE hands x509 a CurrentTime that tests can override through a package-level variable; left at the zero
+// value x509 uses the current time. A package-level time.Time that is INITIALISED from the clock (`= time.Now()`)
+// freezes it at process start (C13P): a leaf that expires while maddy runs still "validly chains" – a DANE-TA match
+// that must be refused is accepted – and a certificate issued after start-up is refused until restart.
+func c13NoFrozenClock(c *Check, rule string, rels []string) {
+	c.Rule(rule, "no package-level variable of the DANE / MTA-STS code is initialised from the clock: a time that is read later as 'now' is taken when it is needed (certificate validity is judged at the time of the connection, not at process start)", 1)
+	p := c.P
+	n := 0
+	for _, rel := range rels {
+		pk := p.Pkg(rel)
+		if pk == nil {
+			c.Fail(rule, rel, token.NoPos, "anchor unresolved")
+			continue
+		}
+		info := pk.TypesInfo
+		for _, f := range pk.Syntax {
+			if strings.HasSuffix(p.Fset.Position(f.Pos()).Filename, "_test.go") {
+				continue
+			}
+			for _, d := range f.Decls {
+				gd, ok := d.(*ast.GenDecl)
+				if !ok || gd.Tok != token.VAR {
+					continue
+				}
+				for _, sp := range gd.Specs {
+					vs := sp.(*ast.ValueSpec)
+					for i, nm := range vs.Names {
+						n++
+						if i >= len(vs.Values) {
+							continue
+						}
+						bad := false
+						ast.Inspect(vs.Values[i], func(y ast.Node) bool {
+							if _, isLit := y.(*ast.FuncLit); isLit {
+								return false
+							}
+							if call, ok := y.(*ast.CallExpr); ok && isCall(info, call, "time.Now", "time.Since", "time.Until") {
+								bad = true
+							}
+							return true
+						})
+						if bad {
+							c.Hold(rule, pk.Types.Name()+"."+nm.Name, nm.Pos(), false, "package-level variable "+nm.Name+" is initialised with "+exprStr(vs.Values[i])+": the clock is read once at process start – where the variable stands for the current time (x509.VerifyOptions.CurrentTime) an expired certificate keeps verifying for as long as the server runs")
+						}
+					}
+				}
+			}
+		}
+	}
+	c.Hold(rule, "package-variables-seen", token.NoPos, n > 0, "no package-level variables found")
+}
